@@ -14,7 +14,9 @@
 
      part E (C05)  RE == INSTANCE ResponseEmit: the clause operators ExactlyOneStartC, NothingAfterFinalC,
                    OnlyLastHasNoMoreBodyC, BodilessHaveNoBytesC, TypelessHaveNoFrameworkTypeC,
-                   OthersHaveTypeC, PrecedenceC, LengthConsistentC, applied in the order and to the
+                   OthersHaveTypeC, StatusLineWellFormedC (the status as it was handed to the server: a
+                   native string "DDD SP reason" on WSGI, an int 100..999 on ASGI), PrecedenceC,
+                   LengthConsistentC, applied in the order and to the
                    observation records of C05's own trace judge (ResponseEmitTrace), + the protocol
                    monitor (status line, native-string headers, byte-string blocks).  The case `c`
                    describes the response as it stood when it was emitted (after error handlers ran),
@@ -71,8 +73,9 @@
        custom-methods      the test extended falcon's method universe (FALCON_CUSTOM_HTTP_METHODS)
        template-vocabulary some route template has a converter, a multi-field segment or two field names at
                            one position (C01's domain; Dispatch has literal and single-field segments)
-       sink-vocabulary     some sink prefix is not made of literal text, (?P<n>\d+), (?P<n>[^/]+), or a static
-                           prefix is not "/literal/"
+       sink-vocabulary     some sink prefix is not made of literal text, (?P<n>\d+), (?P<n>[^/]+), (\d+), ([^/]+) with
+                           at most the IGNORECASE flag, or is not Dispatch!WellFormedSink; or a static prefix is
+                           not "/literal/"
        order-unknown       the order of the add_sink / add_static_route calls was not observed (obs.ids: the
                            assembly calls that registered the callable that ran; one callable may serve several)
        responder-unnamed   the picked responder cannot be named (no uri_template, not an on_* method,
@@ -116,6 +119,7 @@ JudgePrefix(o) ==
     ELSE IF ~RE!BodilessHaveNoBytesC(o) THEN "P:BodilessHaveNoBytes"
     ELSE IF ~RE!TypelessHaveNoFrameworkTypeC(o) THEN "P:TypelessHaveNoFrameworkType"
     ELSE IF ~RE!OthersHaveTypeC(o) THEN "P:OthersHaveType"
+    ELSE IF ~RE!StatusLineWellFormedC(o) THEN "P:StatusLineWellFormed"
     ELSE "ok"
 
 JudgeWhole(o) ==
@@ -142,7 +146,7 @@ EmitSkip ==
 
 (* JudgePrefix is evaluated on the longest prefix only.  Its clauses (at most one start and nothing before it,
    nothing after a final event, every non-last body event has more_body, no bytes for a bodiless response, the
-   Content-Type class of the start event) are prefix-closed: a prefix has no more starts, finals, bytes than the
+   Content-Type class and the status of the start event) are prefix-closed: a prefix has no more starts, finals, bytes than the
    whole and the same first event, so they hold on every prefix iff they hold on the longest one.  (C05's judge
    walks the prefixes to name the position; the suite has responses of a thousand blocks.) *)
 EmitVerdict ==
@@ -219,7 +223,7 @@ DispSkip ==
     ELSE IF ~Dd.stdrouter THEN "custom-router"
     ELSE IF Dd.custommethods THEN "custom-methods"
     ELSE IF ~Dd.tmplok \/ ~D!ConflictFree(CfgRoutes) THEN "template-vocabulary"
-    ELSE IF ~Dd.sinkok THEN "sink-vocabulary"
+    ELSE IF ~Dd.sinkok \/ (\E i \in 1..Len(Dd.asm) : Dd.asm[i].kind = "sink" /\ ~D0!WellFormedSink(Dd.asm[i].pat)) THEN "sink-vocabulary"
     ELSE IF ~Dd.orderok THEN "order-unknown"
     ELSE IF ~Dd.whook THEN "responder-unnamed"
     ELSE ""
